@@ -21,6 +21,14 @@ CHECKS = {
         "covers": ["C02/window-reached"],
         "assumptions": A_COMMON,
     },
+    "C03": {
+        "groups": [{"pkgs": "./x/storage/keeper", "fns": ["VH_C03_*"], "opts": {"j": 1, "w": 14}}],
+        "covers": ["C03/reward-block-done"],
+        "bounds": {"files": 1, "provers per file": 3, "denominations": 1, "released per denomination": "<= 10^17", "file size": "[1, 2^40]"},
+        "assumptions": A_COMMON + A_STORE + A_BANK + ["A-B32", "cut: pullTokensFromGauges returns an arbitrary amount C credited to the module account (C12 covers the real gauges)",
+                       "WF (C17): listed provers are distinct and each has a proof record and a provider record",
+                       "quick tier: list position and address order of the provers coincide"],
+    },
     "C04": {
         "groups": [{"pkgs": "./x/storage/keeper", "fns": ["VH_C04_share_kernel", "VH_C04_buy_fresh"], "opts": {"j": 2, "w": 8}},
                    {"pkgs": "./x/storage/keeper", "fns": ["VH_C04_buy_plan", "VH_C04_buy_names"], "opts": {"j": 2, "w": 8}, "thorough_only": True}],
